@@ -150,6 +150,47 @@ def run(ctx):
         else:
             ctx.fail_closed("CODEC", f"gear-id marker converters have an unrecognised form: {desc}")
 
+    # ---- CODEC empty markers: "no item" is the id 0 on both sides (Option <-> 0), and a slot whose id is 0 is absent
+    def _consts_of(fn):
+        b = prog.body(fn)
+        if not b:
+            return None, None
+        ks = set()
+        for p_ in _Ex(b).explore():
+            for c_ in p_.conds:
+                ks |= _consts(c_)
+            ks |= _consts(p_.env.local(0))
+        return b, ks
+
+    for fn_, what_ in (("gearsets::convert_id_opt", "reader: id 0 -> None"), ("gearsets::convert_opt_id", "writer: None -> 0")):
+        b_, ks_ = _consts_of(fn_)
+        if b_ is None:
+            ctx.fail_closed("CODEC", f"{fn_} not found")
+        else:
+            ctx.ob("CODEC", f"empty-id|{fn_.split('::')[-1]}", ks_ <= {0, 1} and 0 in ks_ and (1 not in ks_ or fn_.endswith("convert_id_opt")), f"{fn_} ({what_}) uses the constants {sorted(ks_)}; the empty marker is 0 on both sides", b_.file, b_.line)
+    sb2 = prog.body("gearsets::convert_from_slots")
+    if sb2:
+        from ..prov import derive as _dv9, index_of as _ix9
+
+        k_sw = set()
+        for b3 in prog.deep_bodies("gearsets::convert_from_slots"):
+            ix3 = _ix9(b3)
+            for blk3 in b3.blocks:
+                t3 = blk3["t"]
+                if t3["k"] == "switch" and not blk3["cleanup"] and "id" in _dv9(ix3, t3["a"]).names:
+                    k_sw |= {int(v_) for v_, _tg in t3["arms"]}
+        ctx.ob("CODEC", "empty-id|convert_from_slots", k_sw == {0}, f"convert_from_slots drops the slots whose item id is one of {sorted(k_sw)}; an empty slot is id 0", sb2.file, sb2.line)
+    else:
+        ctx.fail_closed("CODEC", "gearsets::convert_from_slots not found")
+    # the obfuscated body is read from the file before it is decoded
+    from ..posrule import buffers_filled
+
+    gb9 = prog.body("gearsets::GearSets::from_existing")
+    if gb9:
+        ctx.floor("CODEC", "buffers of GearSets::from_existing", buffers_filled(ctx, "CODEC", gb9, "GearSets::from_existing"), 1)
+    else:
+        ctx.fail_closed("CODEC", "gearsets::GearSets::from_existing not found")
+
     # ---- CONST
     for path, want, what in (
         ("gearsets::GEARSET_KEY", 0x73, "obfuscation key"),
